@@ -161,7 +161,7 @@ def run(prop: str, tier: str, seed: int) -> int:
     if small:
         groups.append(small)
     seeds = [0, 1, 31337] if q else [0, 1, 2, 3, 5, 8, 13, 31337, 424242, 7, 99, 12345]
-    units = [{"specs": g, "engine": eng, "hashseeds": seeds, "tlc_workers": 2, "max_states": 120 if q else 1500}
+    units = [{"specs": g, "engine": eng, "hashseeds": seeds, "tlc_workers": 2, "max_states": 120 if q else 400}
              for g in groups for eng in ("sync", "async")]
     if NPROC > 1 and len(units) > 1:
         import concurrent.futures as cf
